@@ -152,9 +152,9 @@ class Whole(Prop):
         start = rng.choice([0, 0, 0, 1, 3, 7, 100, -3, -1])
         slack = rng.randrange(step) if n_steps else rng.choice([0, 1])
         stop = start + step * n_steps - slack
-        key_cols = rng.choice([[], [], [1], [1], [0, 1], [0, 1], [0, 1], [1, 0], [1, 0], [0]])
+        key_cols = rng.choice([[], [], [1], [1], [0, 1], [0, 1], [0, 1], [0, 1], [1, 0], [1, 0], [1, 0], [0] if pop <= 1 or rng.random() < 0.2 else [0, 1]])
         key_float = rng.random() < 0.3
-        key_bits = rng.choice([20, 20, 16, 10, 3] if key_float else [30, 30, 30, 53, 50, 20, 8, 4, 2])
+        key_bits = rng.choice([20, 20, 20, 16, 10, 3] if key_float else [30, 30, 30, 30, 53, 50, 20, 20, 8, 4, 2])
         n_sched = max(0, n_steps + rng.choice([0, 0, 0, -1, 1]))
         dens = rng.choice([0.15, 0.3, 0.5])
         births = [[(rng.randint(1, 3) if rng.random() < dens else 0) for _ in range(4)] for _ in range(n_sched)]
@@ -162,7 +162,7 @@ class Whole(Prop):
                    addSeed=rng.choice([None, None, None, rng.randrange(100), rng.choice(["a", "x9", "s_1"])]),
                    pop=pop, mapSize=1, start=start, step=step, stop=stop, nSteps=n_steps, keyCols=key_cols, keyBits=key_bits,
                    keyFloat=key_float, sexW=rng.choice([0, 16, 8, 8, 4, 12, rng.randint(1, 15)]), births=births,
-                   akPerPhase=rng.random() < 0.75, order=rng.sample([0, 1, 2], 3),
+                   akPerPhase=rng.random() < 0.85, order=rng.sample([0, 1, 2], 3),
                    birthPrio=[5, 5, 5, 5] if rng.random() < 0.4 else [rng.randrange(10) for _ in range(4)],
                    mortPhase=rng.choice([1, 1, 1, 0, 2, 3]), mortPrio=rng.choice([5, 5, rng.randrange(10)]),
                    disPhase=rng.choice([1, 1, 1, 0, 2, 3]), disPrio=rng.choice([5, 5, rng.randrange(10)]))
@@ -208,14 +208,14 @@ class Whole(Prop):
         if n == 0:
             return []
         r = rng.random()
-        if r < 0.06:                                    # refused: two probability-1 transitions / nothing valid / above 1
+        if r < 0.03:                                    # refused: two probability-1 transitions / nothing valid / above 1
             return [16] * n if n > 1 else ([0] if not self_ok else [16])
         if r < 0.16:                                    # a probability-1 transition, the others 0
             row = [0] * n
             row[rng.randrange(n)] = 16
             return row
         if self_ok:
-            if r < 0.2:
+            if r < 0.18:
                 return [rng.randint(9, 15) for _ in range(n)]     # may exceed 1 (n > 1): refused
             return self._split(rng, rng.choice([16, 12, 8, 5, 3, 0]), n + 1)[:n]
         return self._split(rng, rng.choice([16, 8, 4, 2, 1]), n)
